@@ -218,7 +218,7 @@ def normalize(events):
             x = {'a': 'CSet', 'n': n, 'role': e.get('role', ''), 'id': e['id'], 'cflag': e['cflag'], 'len': e['len'],
                  'ksz': e['ksz'], 'nocomp': bool(e['nocomp']), 'pc': e['probe_c'], 'fc': e['full_c'], 'vh': e['vh'],
                  'svh': e['svh'], 'sflag': e['sflag'], 'slen': e['slen'], 'res': e.get('res', 'err'),
-                 'hascodec': bool(c) and 'skipped' not in c,
+                 'hascodec': bool(c) and 'skipped' not in c, 'codec_empty': bool(c and c.get('empty')),
                  'codec': {k: bool((c or {}).get(k, False)) for k in CODEC}}
             x.update(_obs(e))
             out.append(x)
@@ -377,7 +377,7 @@ def run(pid, tier, seed, work, log, replay=None):
             if e['a'] == 'CSet':
                 nsets += 1
                 ncomp += 1 if e['sflag'] >= 65536 else 0
-                ncodec += 1 if e['hascodec'] else 0
+                ncodec += 1 if e['hascodec'] and not e['codec_empty'] else 0
                 maxlen = max(maxlen, e['len'])
                 if e['role'] == 'case':
                     casever = e['get']['ver']
